@@ -95,8 +95,14 @@ class TransformationsFilter(BaseFilter):
 
     def filter(self, glyph):
         matrix = self.context.matrix
-        if matrix == Identity or not (glyph or glyph.components or glyph.anchors):
+        if matrix == Identity:
             return False  # nothing to do
+
+        if not (glyph or glyph.components or glyph.anchors):
+            # an empty glyph (e.g. space) still has an advance
+            width, height = glyph.width, glyph.height
+            glyph.width, glyph.height = matrix.transformVector((width, height))
+            return (glyph.width, glyph.height) != (width, height)
 
         modified = self.context.modified
         glyphSet = self.context.glyphSet
